@@ -85,9 +85,30 @@ def run(ctx):
     inner = base
     while inner[0] == 'mutby':
         inner = inner[2]
+    other = ('Iterator::skip', 'Iterator::filter', 'Iterator::step_by', 'Vec::pop', 'Vec::remove', 'Vec::drain', 'Vec::split_off', 'Vec::swap_remove')
     okt = len(tk) == 1 and show(arg(tk[0], 1)).startswith('params as MostRecent') and inner[0] == 'phi' and \
         any(not [y for y in walk(a) if y[0] == 'call' and call_is(y, ('Iterator::take', 'Iterator::skip', 'Iterator::filter'))] for a in inner[1]) and \
-        not [y for y in walk(base) if y[0] == 'call' and call_is(y, ('Iterator::skip', 'Iterator::filter', 'Iterator::step_by', 'Vec::truncate', 'Vec::pop', 'Vec::remove'))]
+        not [y for y in walk(base) if y[0] == 'call' and call_is(y, other + ('Vec::truncate',))]
+    # the same selection written in place: `if let MostRecent(n) = params { user_data.truncate(n) }`
+    tr = [m for m in ms if call_is(m, 'Vec::truncate')]
+    trsites = [(pos, t) for pos, t in b.call_sites() if (short(t.get('res') or t.get('fn')) or '').endswith('Vec::truncate')]
+    if not tk and len(tr) == 1 and len(trsites) == 1 and show(arg(tr[0], 1)).startswith('params as MostRecent') and \
+            not [y for y in walk(base) if y[0] == 'call' and call_is(y, other + ('Iterator::take',))]:
+        # truncate must sit on the MostRecent side only (the scrutinee decides), Complete keeps all: guaranteed by its argument
+        # being the MostRecent payload (only defined on that arm)
+        okt = True
+    # the limit applies to the states that survived the snapshot filter and the sort: retain and sort_by both
+    # execute before the take/truncate on every path (seeded change C03-r1-a: the cut was moved before the filter)
+    def sites(name):
+        return [pos for pos, t in b.call_sites() if (short(t.get('res') or t.get('fn')) or '').endswith(name)]
+    lim = sites('Iterator::take') + sites('Vec::truncate')
+    pre = {'retain': sites('Vec::retain'), 'sort_by': sites('sort_by')}
+    oko = bool(lim) and all(v for v in pre.values()) and all(
+        any(b.blk_dominates(p[0], l[0]) and (p[0] != l[0] or p[1] < l[1]) for p in ps) for ps in pre.values() for l in lim)
+    ctx.ob('C03.S.filter_before_limit', 'RF-ORDER', oko, b.path, where,
+           'the snapshot filter (retain) and the newest-first sort run before the MostRecent(n) cut' if oko else
+           'the MostRecent(n) cut is not preceded on every path by the snapshot filter (retain epoch <= snapshot) and the sort: '
+           'states newer than the snapshot would count towards n', key='RF-ORDER|C03.filter_before_limit')
     ctx.ob('C03.S.limit', 'RF-GUARD', okt, b.path, where, 'MostRecent(n) keeps the first n states, Complete keeps all' if okt else
            'the selection is not {Complete: all, MostRecent(n): take(n)}: %s' % show(base)[:160], key='RF-GUARD|C03.limit')
     require_guard(ctx, b, 'C03.S.empty', 'RF-GUARD', lambda fc: fc[0] == 'pred' and fc[1].endswith('Vec::is_empty') and fc[3] is True and
